@@ -189,9 +189,10 @@ P["C02"] = dict(P["C01"], design_ref="DESIGN.md §8 C02",
                 runs=[tierB("memo", 3, 0, QT), tierB("memo", 3, 3, T), tierB("memo", 4, 1, T), tierB("control", 3, 0, T), tierA(3, 2, fRetract, QT)])
 P["C13"] = {
     "design_ref": "DESIGN.md §8 C13", "assumptions": TIERB_ASSUME,
-    "bounds": "Tier B: counted method F.Heavy(F.I) shared by 3 rules in different contexts (b_shared) and all other memo templates; K <= 4 firings; invalidations counted from the fired rules' action lists",
+    "bounds": "Tier B: counted method F.Heavy(F.I) shared by 3 rules in different contexts (b_shared; b_sharedcomp: the same with compound assignments += -= *= to sibling fields, which must not count as invalidations) and all other memo templates; K <= 4 firings; invalidations counted from the fired rules' action lists",
     "outside": "other rule sets; the inductive 'one sweep performs zero calls' step is not built",
-    "runs": [tierB("memo", 3, 0, QT, require_reach=["tierB:execute-returned", "tierB:counted-call-ran"]), tierB("memo", 4, 1, T, require_reach=["tierB:execute-returned", "tierB:counted-call-ran"])]}
+    "runs": [tierB("memo", 3, 0, QT, require_reach=["tierB:execute-returned", "tierB:counted-call-ran"]), tierB("memo", 4, 1, T, require_reach=["tierB:execute-returned", "tierB:counted-call-ran"]),
+             tierB("memo3", 3, 0, QT, require_reach=["tierB:execute-returned", "tierB:counted-call-ran"])]}
 def memoStep(setname, state, tiers):
     sn = {0: "filled", 1: "empty", 2: "alternating-a", 3: "alternating-b"}[state]
     return {"name": "memo-step-%s-%s" % (setname, sn), "pkgdir": "zztier", "harness": TIERC_H, "entry": "VerifMemoStep", "args": [setname, state], "tiers": tiers,
